@@ -17,7 +17,7 @@ import sampletable2coq    # noqa: E402
 PROP = "C03"
 META = dict(
     technique="Coq proof over generated conversions + generated companion table + hand model of dasp_frame; coqc-evaluated model vs crates correspondence (debug + release)",
-    text="translate/sampletable2coq.py reads the impl_sample! table (Signed, Float, EQUILIBRIUM per format) and pins the text of Sample::{to_signed_sample,to_float_sample,add_amp,mul_amp}; Sample/SampleOps.v composes them from the conversions generated from conv.rs (C01) and the I24/I48 operator model (C15). Coq 8.16.1 proves: the table facts; add_amp s 0 = s (all 14 formats, both profiles); mul_amp s 0.0 = equilibrium and mul_amp s 1.0 = s exactly for the formats that fit the float companion's mantissa (8/16/24-bit with f32, 48-bit with f64), with explicit counterexamples for the 32/64-bit formats; add_amp = re-centred integer addition, Ok iff the signed sum is representable; for EVERY channel count N and every frame: Frame::map/zip_map/from_fn through the unchecked indexing never hit UB and equal the in-order per-channel traversal (call order included), from_samples returns Some(firstn N) iff the iterator has N items, consumes exactly min(N, len) items and never reads an unwritten slot, every amplitude method is the per-channel sample method in channel order, channels()/channel(i) enumerate the frame, any script of iterator steps (next, nth, skip, step_by, count, last, len) on one channels() iterator behaves as the list iterator over the channels (provided methods of core::iter modelled from next()), and a bare sample behaves as the 1-channel frame. The model is tied to the crates by running it inside coqc on the same cases as the real code (public trait methods, 232 array monomorphisations N=1..32 + 14 mono impls, call-order-recording FnMut closures, counting iterators, panics observed).",
+    text="translate/sampletable2coq.py reads the impl_sample! table (Signed, Float, EQUILIBRIUM per format) and pins the text of Sample::{to_signed_sample,to_float_sample,add_amp,mul_amp}; Sample/SampleOps.v composes them from the conversions generated from conv.rs (C01) and the I24/I48 operator model (C15). Coq 8.16.1 proves: the table facts; add_amp s 0 = s (all 14 formats, both profiles); mul_amp s 0.0 = equilibrium and mul_amp s 1.0 = s exactly for the formats that fit the float companion's mantissa (8/16/24-bit with f32, 48-bit with f64), with explicit counterexamples for the 32/64-bit formats; for those wide formats (i32/u32 with f32, i64/u64 with f64), every in-range sample and both profiles: mul_amp s 1.0 does not panic, equals min(MAX, equilibrium + RNE(amplitude)) (RNE = Flocq's round-to-nearest-even of the integer amplitude to 24 / 53 bits; the top end relies on the saturating float->int cast, the float being exactly 1.0 there), is in range and within 2^(bits-prec-2) (64 / 512, attained) of the sample, hence exact whenever the amplitude fits the mantissa; add_amp = re-centred integer addition, Ok iff the signed sum is representable; for EVERY channel count N and every frame: Frame::map/zip_map/from_fn through the unchecked indexing never hit UB and equal the in-order per-channel traversal (call order included), from_samples returns Some(firstn N) iff the iterator has N items, consumes exactly min(N, len) items and never reads an unwritten slot, every amplitude method is the per-channel sample method in channel order, channels()/channel(i) enumerate the frame, any script of iterator steps (next, nth, skip, step_by, count, last, len) on one channels() iterator behaves as the list iterator over the channels (provided methods of core::iter modelled from next()), and a bare sample behaves as the 1-channel frame. The model is tied to the crates by running it inside coqc on the same cases as the real code (public trait methods, 232 array monomorphisations N=1..32 + 14 mono impls, call-order-recording FnMut closures, counting iterators, panics observed).",
     note="Trusted: Coq kernel; translate/conv2coq.py + translate/sampletable2coq.py; Sample/Rint.v, Sample/TypesModel.v, Base/Float.v (Flocq) as the meaning of Rust's integer / I24 / IEEE operators; core::array::from_fn and core::array::map call their closure in index order (std documentation); harness + generators. Several frame theorems are near-definitional in a functional model: their content is the absence of UB in the unchecked-index code and the pinned correspondence. Axioms: the standard real-number axioms through Flocq for the float identities only.",
     design="6/C03")
 HEADER = "From Dasp Require Import Sample.ConvRun Frame.FrameRun.\nRequire Import Uint63."
@@ -59,6 +59,51 @@ def half(n):
 
 def float_of(n):
     return "f64" if n in FLOAT64 else "f32"
+
+
+def prec_of(n):
+    return 53 if n in FLOAT64 else 24
+
+
+def is_wide(n):
+    return not is_float(n) and BITS[CODE[n]] > prec_of(n)
+
+
+def rne_int(a, prec):
+    """round-to-nearest-even of the integer a to prec significant bits (exact integer arithmetic)"""
+    m = abs(a)
+    nb = m.bit_length()
+    if nb <= prec:
+        return a
+    sh = nb - prec
+    q, rem = divmod(m, 1 << sh)
+    hf = 1 << (sh - 1)
+    if rem > hf or (rem == hf and (q & 1)):
+        q += 1
+    return (q << sh) if a >= 0 else -(q << sh)
+
+
+def scale_by_one_spec(n, v):
+    """the closed form of c03_mul_one_wide / c03_mul_one_exact: min(MAX, equilibrium + RNE(amplitude))"""
+    return min(rng_of(n)[1], half(n) + rne_int(v - half(n), prec_of(n)))
+
+
+def wide_one_values(r, n):
+    """structured samples for `mul_amp 1.0` on a wide format: both ends (the top one saturates), ties of every
+    binade above the mantissa, the last exactly representable amplitudes, random values of every magnitude"""
+    lo, hi = rng_of(n)
+    b, p, h = BITS[CODE[n]], prec_of(n), half(n)
+    top = 1 << (b - p - 2)            # half an ulp of the top binade
+    vs = [hi - t for t in (0, 1, top - 2, top - 1, top, top + 1, 2 * top - 1, 2 * top, 2 * top + 1, 3 * top)]
+    vs += [lo + t for t in (0, 1, top - 1, top, top + 1, 2 * top, 2 * top + 1)]
+    vs += [h + sg * ((1 << p) + d) for sg in (1, -1) for d in (-1, 0, 1, 2, 3)]
+    for e in range(p + 1, b - 1):     # amplitudes in [2^e, 2^(e+1)): ulp = 2^(e+1-p)
+        u = 1 << (e + 1 - p)
+        m = r.below(1 << (p - 1))
+        for d in (u // 2, u // 2 + r.choice([-1, 1])):
+            vs.append(h + r.choice([1, -1]) * ((1 << e) + m * u + d))
+    vs += [h + r.choice([1, -1]) * r.below(1 << r.range(p, b - 1)) for _ in range(6)]
+    return [min(hi, max(lo, v)) for v in vs]
 
 
 def to_signed_py(n, v):
@@ -254,6 +299,8 @@ def sample_ops(r, n, count):
     one, zero = fbits(fl, 1.0), fbits(fl, 0.0)
     for v in fixed:
         ops += [["sadd", [v, 0]], ["smul", [v, zero]], ["smul", [v, one]], ["ssig", [v]], ["sflt", [v]]]
+    if is_wide(n):
+        ops += [["smul", [v, one]] for v in wide_one_values(r, n)]
     for _ in range(count):
         v = val(r, n)
         k = r.below(10)
@@ -412,7 +459,8 @@ def build_bins():
 
 
 PREBUILD = ["theories/Frame/FrameRunU.vo", "theories/Frame/FrameExamples.vo", "theories/Frame/ChanIterProofs.vo",
-            "theories/Frame/FrameOpsProofs.vo", "theories/Sample/SampleOpsFloatProofs.vo", "theories/Base/FloatRun.vo"]
+            "theories/Frame/FrameOpsProofs.vo", "theories/Sample/SampleOpsFloatProofs.vo", "theories/Sample/SampleOpsWideProofs.vo",
+            "theories/Base/FloatRun.vo"]
 
 
 def correspond_u(bins, items, tag):
@@ -495,21 +543,28 @@ def main(rep, tier, seed):
         for it, o in zip(items, outl):
             mode = it["mode"]
             parts = o.split(";")
-            # tested-only clause (no theorem): scaling a 32/64-bit sample by 1.0 stays in range and within
-            # 2^(bits - prec) of the sample; exact for the narrower formats (also proved: c03_mul_one_exact)
+            # the closed form of the theorems c03_mul_one_exact / c03_mul_one_wide, recomputed here in exact integer
+            # arithmetic (independent of Flocq) and compared with the CRATE: scaling by 1.0 returns
+            # min(MAX, equilibrium + RNE(amplitude)), in range, within 2^(bits - prec - 2) of the sample for the
+            # 32/64-bit formats and exactly the sample for the narrower ones
             if not is_float(it["fmt"]):
                 fl = float_of(it["fmt"])
-                one, prec, b = fbits(fl, 1.0), (24 if fl == "f32" else 53), BITS[CODE[it["fmt"]]]
+                one, prec, b = fbits(fl, 1.0), prec_of(it["fmt"]), BITS[CODE[it["fmt"]]]
                 lo, hi = rng_of(it["fmt"])
                 for op, ob in zip(it["ops"], parts):
                     if op[0] == "smul" and op[1][1] == one:
                         stats["scale_by_one_checked"] = stats.get("scale_by_one_checked", 0) + 1
                         tk = ob.split()
-                        tol = 0 if b <= prec else 1 << (b - prec)
-                        if len(tk) != 2 or tk[0] != "0" or not (lo <= int(tk[1]) <= hi) or abs(int(tk[1]) - op[1][0]) > tol:
+                        tol = 0 if b <= prec else 1 << (b - prec - 2)
+                        want = scale_by_one_spec(it["fmt"], op[1][0])
+                        if len(tk) == 2 and tk[0] == "0" and int(tk[1]) != op[1][0]:
+                            stats["scale_by_one_inexact"] = stats.get("scale_by_one_inexact", 0) + 1
+                            if int(tk[1]) == hi and want == hi and half(it["fmt"]) + rne_int(op[1][0] - half(it["fmt"]), prec) > hi:
+                                stats["scale_by_one_saturated"] = stats.get("scale_by_one_saturated", 0) + 1
+                        if len(tk) != 2 or tk[0] != "0" or not (lo <= int(tk[1]) <= hi) or abs(int(tk[1]) - op[1][0]) > tol or int(tk[1]) != want:
                             rep.violation(f"scale_by_one_{it['fmt']}_{op[1][0]}", {
-                                "kind": "mul_amp(s, 1.0) is not within the float companion's precision of s (or out of range, or panicked)",
-                                "format": it["fmt"], "sample": op[1][0], "observed": ob, "tolerance": tol,
+                                "kind": "mul_amp(s, 1.0) is not min(MAX, equilibrium + RNE(amplitude)) (or out of range, or further than half an ulp of the top binade from s, or panicked)",
+                                "format": it["fmt"], "sample": op[1][0], "observed": ob, "tolerance": tol, "expected": want,
                                 "profile": "debug" if mode == 0 else "release",
                                 "case": dict(fmt=it["fmt"], n=1, bare=it["bare"], mode=mode, kind="sample", ops=[op])})
             stats["evaluations"] += len(it["ops"])
@@ -568,9 +623,10 @@ def finish(rep, info, stats, times, fb):
         "regenerated_files": info.get("regenerated", []),
         "evaluations": stats.get("evaluations", 0), "cases": stats.get("cases", 0),
         "distinct_nontrivial": stats.get("nontrivial", 0),
-        "rule": "every op of every case is one evaluation, compared exactly (values, logs of closure calls, iterator call counts, panics). Cases: Sample::{add_amp,mul_amp,to_signed_sample,to_float_sample,EQUILIBRIUM} on boundary-structured + random values of all 14 formats; every Frame method on [S; N] for N=1..32 over u8,i16,I24,u32,f32,f64 and N in {1,2,3,8,32} over the other 8 formats, and on every bare sample type; from_samples with every iterator length 0..N+2; iterator-adaptor scripts (structured: nth/skip/step_by/count/last/len on a partly consumed and on an exhausted iterator, next_back/rev on the slice-backed ones; plus random scripts) on ONE channels() / channels_ref() / channels_mut() instance for every (format, N) and every bare sample; both build profiles. non-trivial = an offset/scale/add_amp/mul_amp with a non-zero amplitude on an unsigned or custom-width (24/48-bit) format, or a frame op on N >= 2 channels with distinct values, or a from_samples with fewer than N items, or an iterator script with a position-dependent step after the iterator was advanced (distinct (format, N, op, arguments))",
+        "rule": "every op of every case is one evaluation, compared exactly (values, logs of closure calls, iterator call counts, panics). Cases: Sample::{add_amp,mul_amp,to_signed_sample,to_float_sample,EQUILIBRIUM} on boundary-structured + random values of all 14 formats; for i32/u32/i64/u64 additionally mul_amp(s, 1.0) on structured samples (MAX - t and MIN + t around half an ulp of the top binade -- the top ones saturate --, ties and near-ties of every binade above the mantissa, the last exactly representable amplitudes), every mul_amp(s, 1.0) result of the crate also compared with the theorems' closed form min(MAX, equilibrium + RNE(amplitude)) recomputed in exact integer arithmetic; every Frame method on [S; N] for N=1..32 over u8,i16,I24,u32,f32,f64 and N in {1,2,3,8,32} over the other 8 formats, and on every bare sample type; from_samples with every iterator length 0..N+2; iterator-adaptor scripts (structured: nth/skip/step_by/count/last/len on a partly consumed and on an exhausted iterator, next_back/rev on the slice-backed ones; plus random scripts) on ONE channels() / channels_ref() / channels_mut() instance for every (format, N) and every bare sample; both build profiles. non-trivial = an offset/scale/add_amp/mul_amp with a non-zero amplitude on an unsigned or custom-width (24/48-bit) format, or a frame op on N >= 2 channels with distinct values, or a from_samples with fewer than N items, or an iterator script with a position-dependent step after the iterator was advanced (distinct (format, N, op, arguments))",
         "samples": stats.get("samples", []), "input_distribution": dict(stats.get("hist", {}), panic_observations=stats.get("panics", 0)),
-        "disagreements": stats.get("bad", 0), "scale_by_one_bound_checked": stats.get("scale_by_one_checked", 0), "timing": times, "float_model_validation": fb,
+        "disagreements": stats.get("bad", 0), "scale_by_one_bound_checked": stats.get("scale_by_one_checked", 0),
+        "scale_by_one_inexact_results": stats.get("scale_by_one_inexact", 0), "scale_by_one_saturated_at_max": stats.get("scale_by_one_saturated", 0), "timing": times, "float_model_validation": fb,
         "explanation": "theorems: identities of add_amp/mul_amp per format, re-centring, per-channel / in-order / no-UB theorems for every N; tie: translator for the companion table and conversions + the executable model run by coqc on the same cases as the crates through the public traits, all observations compared exactly",
     }
     return rep.finish("proof", cov, [
